@@ -85,8 +85,8 @@ def check_project(ctx, fi):
         v = expand(r.value, defs, keep=(attrs,))
         while isinstance(v, ast.Call) and isinstance(v.func, ast.Attribute) and v.func.attr == 'copy' and not v.args and not v.keywords:
             v = v.func.value          # a copy keeps the layout
-        ok = isinstance(v, ast.Call) and isinstance(v.func, ast.Attribute) and v.func.attr == 'project' and len(v.args) == 1 \
-            and U(v.args[0]) == attrs
+        ok = isinstance(v, ast.Call) and isinstance(v.func, ast.Attribute) and v.func.attr in ('project', 'transpose') and len(v.args) == 1 \
+            and U(v.args[0]) == attrs          # Factor.transpose(attrs) orders by the request as well (and insists on the same attribute set)
         if not ok and isinstance(v, ast.Subscript) and U(v.value) == 'self.marginals':
             # the cached marginal of clique K itself, returned under `attrs == K`: already in the requested order
             K_ = U(v.slice)
@@ -137,7 +137,7 @@ def check_project(ctx, fi):
     where = fi.node
     if found is not None:
         K, where, kind = found
-        cached = [r for r in rets if 'self.marginals[' in U(r.value)]
+        cached = [r for r in rets if 'self.marginals[' in U(expand(r.value, defs, keep=(attrs, K)))]
         pairwise = []
         for r in list(cached):
             pv = two_clique_answer(fi, r, attrs, defs)
